@@ -165,7 +165,8 @@ def inDomain : Form → List Str → Bool
       noSpace sum && !sum.isEmpty
   | .acceptedCert, [u, a, p, v, kt, h, sum, k, n, ct, cf] =>
       noNL u && noSpace a && digits p && alnums v && keyTypeLike kt && keyTypeLike h &&
-      noSpace sum && !sum.isEmpty && noNL k && lacks k " port " && lacks k " ssh" && digits n &&
+      noSpace sum && !sum.isEmpty && noNL k && lacks k " port " && lacks k " ssh" && lacks k ": " &&
+      digits n &&
       keyTypeLike ct && noSpace cf && !cf.isEmpty
   | .acceptedPassword, [u, a, p, v] | .maxAuth, [u, a, p, v] | .failedPassword, [u, a, p, v] =>
       noNL u && noSpace a && digits p && alnums v
